@@ -272,9 +272,12 @@ class TAlt:
     b: Any
 
 
-class Return(Exception):
-    def __init__(self, value):
-        self.value = value
+class _Fall:
+    def __repr__(self):
+        return '<falls through>'
+
+
+_FALLTHROUGH = _Fall()
 
 
 # ------------------------------------------------------------------------------------------------------------
@@ -332,8 +335,15 @@ class Evaluator:
                 env[p.arg] = kwargs[p.arg]
             elif d is not None:
                 env[p.arg] = self.eval(d, {}, fn, depth + 1)
-        result = self.exec_block(fn.node.body, env, fn, depth)
-        return result if result is not None else TNone
+        falls, returns = self._block(fn.node.body, env, fn, depth)
+        if falls:
+            returns = returns + [(TRUE, TNone)]
+        if not returns:
+            return TNone
+        acc = returns[-1][1]
+        for c, v in reversed(returns[:-1]):
+            acc = self._alt(c, v, acc)
+        return acc
 
     def eval_entry(self, fn: FuncInfo, bindings: Optional[Dict[str, Any]] = None) -> Any:
         """Evaluate fn with its parameters as symbolic roots (typed by their annotations)."""
@@ -348,42 +358,71 @@ class Evaluator:
 
     # -- statements -------------------------------------------------------------------------------------------------
     def exec_block(self, stmts: List[ast.stmt], env: Dict[str, Any], fn: FuncInfo, depth: int) -> Any:
-        """Executes statements; returns the returned value (possibly a TAlt over paths) or None."""
-        for i, s in enumerate(stmts):
+        """Executes statements in `env` (updated in place); returns the function's result if every path through the
+        block returns, a TAlt over (returned value | fall-through marker) otherwise, or None when nothing returns."""
+        falls, returns = self._block(stmts, env, fn, depth)
+        if not returns:
+            return None
+        if falls:
+            # some paths fall through: callers that continue after this block use exec via _block directly
+            returns = returns + [(TRUE, _FALLTHROUGH)]
+        acc = returns[-1][1]
+        for c, v in reversed(returns[:-1]):
+            acc = self._alt(c, v, acc)
+        return acc
+
+    def _block(self, stmts: List[ast.stmt], env: Dict[str, Any], fn: FuncInfo, depth: int
+               ) -> Tuple[bool, List[Tuple[Cond, Any]]]:
+        """Returns (falls_through, [(path condition, returned value)])."""
+        returns: List[Tuple[Cond, Any]] = []
+        path: List[Cond] = []
+
+        def conj(extra: Optional[Cond] = None) -> Cond:
+            cs = [c for c in path + ([extra] if extra is not None else []) if c != TRUE]
+            if not cs:
+                return TRUE
+            return cs[0] if len(cs) == 1 else Cond('and', tuple(cs))
+
+        def with_path(rs, extra: Optional[Cond]):
+            out = []
+            for c, v in rs:
+                parts = [x for x in path + ([extra] if extra is not None else []) + [c] if x != TRUE]
+                out.append((TRUE if not parts else parts[0] if len(parts) == 1 else Cond('and', tuple(parts)), v))
+            return out
+
+        for s in stmts:
             if isinstance(s, ast.Return):
-                return self.eval(s.value, env, fn, depth) if s.value is not None else TNone
+                returns.append((conj(), self.eval(s.value, env, fn, depth) if s.value is not None else TNone))
+                return False, returns
             if isinstance(s, ast.Raise):
-                return TRaise(ast.unparse(s.exc)[:60] if s.exc is not None else 'raise')
+                returns.append((conj(), TRaise(ast.unparse(s.exc)[:60] if s.exc is not None else 'raise')))
+                return False, returns
             if isinstance(s, ast.If):
                 cond = self.cond(s.test, env, fn, depth)
-                if cond == TRUE:
-                    r = self.exec_block(s.body, env, fn, depth)
-                    if r is not None:
-                        return r
-                    continue
-                if cond == FALSE:
-                    r = self.exec_block(s.orelse, env, fn, depth)
-                    if r is not None:
-                        return r
+                if cond == TRUE or cond == FALSE:
+                    f, rs = self._block(s.body if cond == TRUE else s.orelse, env, fn, depth)
+                    returns.extend(with_path(rs, None))
+                    if not f:
+                        return False, returns
                     continue
                 env_a, env_b = self._fork(env), self._fork(env)
-                ra = self.exec_block(s.body, env_a, fn, depth)
-                rb = self.exec_block(s.orelse, env_b, fn, depth) if s.orelse else None
-                rest = stmts[i + 1:]
-                if ra is not None and rb is not None:
-                    return self._alt(cond, ra, rb)
-                if ra is not None:
+                fa, ra = self._block(s.body, env_a, fn, depth)
+                fb, rb = self._block(s.orelse, env_b, fn, depth) if s.orelse else (True, [])
+                returns.extend(with_path(ra, cond))
+                returns.extend(with_path(rb, c_not(cond)))
+                if not fa and not fb:
+                    return False, returns
+                if not fa:
                     self._adopt(env, env_b)
-                    rr = self.exec_block(rest, env, fn, depth)
-                    return self._alt(cond, ra, rr if rr is not None else TNone)
-                if rb is not None:
+                    path.append(c_not(cond))
+                elif not fb:
                     self._adopt(env, env_a)
-                    rr = self.exec_block(rest, env, fn, depth)
-                    return self._alt(cond, rr if rr is not None else TNone, rb)
-                self._merge(env, cond, env_a, env_b)
+                    path.append(cond)
+                else:
+                    self._merge(env, cond, env_a, env_b)
                 continue
             self.exec_stmt(s, env, fn, depth)
-        return None
+        return True, returns
 
     def _alt(self, cond: Cond, a: Any, b: Any) -> Any:
         if isinstance(a, TRaise) and isinstance(b, TRaise):
@@ -399,6 +438,8 @@ class Evaluator:
                 out[k] = TList(v.items)
             elif isinstance(v, TBlock):
                 out[k] = TBlock(v.items, v.comment)
+            elif isinstance(v, TObj):
+                out[k] = TObj(v.cls, dict(v.fields))
             else:
                 out[k] = v
         return out
@@ -433,6 +474,18 @@ class Evaluator:
                 continue
             if va is None or vb is None:
                 env[k] = TAlt(cond, va if va is not None else TOpaque('unbound'), vb if vb is not None else TOpaque('unbound'))
+                continue
+            if isinstance(va, TObj) and isinstance(vb, TObj) and va.cls is vb.cls:
+                fields = {}
+                for fk in set(va.fields) | set(vb.fields):
+                    fa_, fb_ = va.fields.get(fk, TNone), vb.fields.get(fk, TNone)
+                    if fa_ is fb_ or repr(fa_) == repr(fb_):
+                        fields[fk] = fa_
+                    elif isinstance(fa_, TStr) and isinstance(fb_, TStr):
+                        fields[fk] = TStr([AltS(cond, fa_, fb_)])
+                    else:
+                        fields[fk] = TAlt(cond, fa_, fb_)
+                env[k] = TObj(va.cls, fields)
                 continue
             if repr(va) == repr(vb):
                 env[k] = va
